@@ -391,6 +391,13 @@ def compute(hw, old, new, acl_text, synth=False, refs=None):
         out["cmds_direct"] = [list(p) for p in fmt.cmd_paths(p2)]
     except Exception as e:
         out["error_direct"] = type(e).__name__
+    if not synth:
+        # the compiled rulebook the job worked with is part of what must not depend on the jobs before it (which logic each rule got, which flags)
+        try:
+            from vf.props import c18 as _c18
+            out["rulebook"] = _c18.R_hash(_c18.rb_signature(rulebook.get_rulebook(hw)))
+        except Exception as e:
+            out["error_rulebook"] = type(e).__name__
     try:
         out["ordered"] = plain(Orderer.from_hw(hw).order_config(new))
     except Exception as e:
